@@ -541,7 +541,8 @@ def toPES(radial, intensity, energy_cal_factor, per_energy_scaling=True,
     # Jacobian, we find dE/dr = 2c2r. Since the coordinates are getting
     # stretched at high E and "squished" at low E, we know that we need to
     # divide by this factor.
-    intensity[1:] /= (2 * radial[1:])  # 1: to exclude R = 0
+    nonzero = radial != 0  # (to exclude R = 0)
+    intensity[nonzero] /= 2 * radial[nonzero]
     if per_energy_scaling:
         # intensity per unit energy
         intensity /= energy_cal_factor
